@@ -256,7 +256,7 @@ Theorem selected_output_satisfies_request_lemma : forall cs q s e,
   exists t, output_of s = Some t /\ accepts_in t e = true.
 Proof.
   intros cs q s e H HO HE. destruct (resolve_sel_in _ _ _ H) as [_ HT].
-  destruct (try_match_sound_lemma _ _ _ _ HT) as [_ [_ [HR [HX _]]]].
+  destruct (try_match_sound_lemma _ _ _ _ HT) as [nargs [dused [_ [_ [_ [HR [HX _]]]]]]].
   destruct (HR HO) as [t Ht]. exists t. split; [unfold output_of; rewrite HO; auto|].
   eapply o_subst_rel; eauto.
 Qed.
@@ -268,13 +268,15 @@ Proof. intros H. induction 1; constructor; auto. Qed.
 (* every time-series argument of the selection is accepted by the substituted parameter pattern *)
 Theorem selected_params_accept_arguments_lemma : forall c q m k,
   try_match c q = TMOk m k ->
+  exists nargs dused, normalize (c_defaults c) (q_args q) = Some (nargs, dused) /\
   Forall2 (fun pr a => match pr, a with
                        | PIn p, ATs t => forall t', tresolve p m = Some t' -> accepts_in t' t = true
                        | PScal sp, ASc v => forall s', sresolve sp m = Some s' -> srel s' v = true \/ coercible v s' = true
                        | _, _ => True
-                       end) (c_params c) (q_args q).
+                       end) (c_params c) nargs.
 Proof.
-  intros c q m k H. destruct (try_match_sound_lemma _ _ _ _ H) as [_ [HF _]].
+  intros c q m k H. destruct (try_match_sound_lemma _ _ _ _ H) as [nargs [dused [HN [_ [HF _]]]]].
+  exists nargs, dused. split; auto.
   eapply Forall2_weaken; [|exact HF]. intros [p|sp] [t|v| |]; cbn [arg_inst]; auto.
   - intros HI t' Ht. eapply i_subst_rel; eauto.
   - destruct sp; try (intros HI s' Hs; left; eapply s_subst_rel; eauto; fail).
